@@ -112,6 +112,8 @@ def parseOp (f : List String) : Option Op :=
   | "state" :: r :: _ => some (.addState (ridOf r) (kvN f "n"))
   | "finstate" :: r :: _ => some (.finalizeState (ridOf r))
   | "fork" :: r :: _ => some (.fork (ridOf r) (kvN f "h"))
+  | ["chanclose", c] => some (.chanClose (idx! c))
+  | ["chanopen", c] => some (.chanOpen (idx! c))
   | ["epoch"] => some .epoch
   | ["block"] => some .block
   | _ => none
@@ -144,8 +146,14 @@ def nameOfKey (s : St) (k : Bytes) : String :=
   | some p => pktName s p
   | none => "?"
 
+def perrName : Option PErr → String
+  | none => "0"
+  | some .ackClosed => "ackClosed"
+  | some .ackExists => "ackExists"
+  | some (.refund bal amt d) => s!"refund:{bal}:{amt}:d{d}"
+
 def renderPkt (s : St) (p : Packet) : String :=
-  s!"{pktName s p}/{stCh p.status}/a{p.target}/{optA p.orig}/{p.amount}/d{p.denom}/{b2s p.unescrow}/{b2s p.ackErr}/{b2s p.failed}"
+  s!"{pktName s p}/{stCh p.status}/a{p.target}/{optA p.orig}/{p.amount}/d{p.denom}/{b2s p.unescrow}/{b2s p.ackErr}/{perrName p.perr}"
 
 def renderOrd (s : St) (o : Order) : String :=
   let tk := match getPacket s o.trackingKey with
@@ -196,7 +204,8 @@ def render (s : St) (nActors : Nat) (res : String) : String :=
   let cm := dash ((sortBy ltNN s.commits).map fun x => s!"c{x.1}.{x.2}") ","
   let ak := dash ((sortBy (fun (a b : (Nat × Nat) × Bool) => ltNN a.1 b.1) s.acks).map fun x => s!"c{x.1.1}.{x.1.2}.{b2s x.2}") ","
   let ns := joinWith "," ((List.range 4).map fun c => toString (getNextSeq s c))
-  s!"res={res} h={s.h} ra={ras} pk={pk} ix={ix} ord={ord} lp={lp} gr={gr} bal={bal} rc={rc} cm={cm} ak={ak} ns={ns}"
+  let cl := dash ((sortBy (fun (a b : Nat) => a < b) s.closed).map fun c => s!"c{c}") ","
+  s!"res={res} h={s.h} ra={ras} pk={pk} ix={ix} ord={ord} lp={lp} gr={gr} bal={bal} rc={rc} cm={cm} ak={ak} ns={ns} cl={cl}"
 
 def errName : Err → String
   | .notFound => "notFound" | .notFinal => "notFinal" | .noFinalState => "noFinalState" | .notPending => "notPending"
@@ -204,7 +213,7 @@ def errName : Err → String
   | .insufficient => "insufficient" | .unauthorized => "unauthorized" | .feeTooHigh => "feeTooHigh" | .badMemo => "badMemo"
   | .invalid => "invalid" | .badKey => "invalid" | .rollappMismatch => "rollappMismatch" | .priceMismatch => "priceMismatch"
   | .notValidated => "notValidated" | .noState => "noState" | .noLp => "noLp" | .notOwner => "notOwner" | .noGrant => "noGrant"
-  | .blocked => "blocked" | .badChannel => "badChannel" | .internal => "internal"
+  | .blocked => "blocked" | .badChannel => "badChannel" | .chanClosed => "chanClosed" | .internal => "internal"
 
 def outName : Out → String
   | .ok => "ok"
@@ -214,6 +223,7 @@ def outName : Out → String
   | .recv .async => "async"
   | .recv .ackOk => "ackok"
   | .recv .ackErr => "ackerr"
+  | .recv .closed => "chanClosed"
 
 structure DState where
   st : St
